@@ -99,6 +99,58 @@ static void round_fn(ds_worker_t* w) {
   }
 }
 
+// capacities beyond what the concurrent rounds use: 2^17 and 2^20 are filled completely once (more than 65536 and 2^16*2^k items
+// outstanding); the largest capacities the interface admits are only created and touched at the far end of their slot array (the
+// counters start just below the capacity, so the first pushes land in the last slots and then wrap to the first)
+static void big_capacity_prefix(void) {
+  static const int full_k[] = {17, 20};
+  unsigned q;
+  for (q = 0; q < 2; ++q) {
+    const int k = full_k[q];
+    lockfree_ring_buffer_t* r = lockfree_ring_buffer_create((uint32_t)k);
+    if (!r) continue;
+    const long cap = 1L << k;
+    long i;
+    for (i = 0; i < cap; ++i)
+      if (!lockfree_ring_buffer_trypush(r, (void*)(uintptr_t)(i + 1))) {
+        vp_violation("C16", "ring:seq-push-failed", "capacity %ld: sequential trypush %ld failed although only %ld items are inside", cap, i, i);
+        break;
+      }
+    if (i == cap && lockfree_ring_buffer_trypush(r, (void*)(uintptr_t)0x7777)) vp_violation("C16", "ring:seq-overfill", "capacity %ld: trypush succeeded on a full buffer", cap);
+    for (i = 0; i < cap; ++i) {
+      void* v = lockfree_ring_buffer_trypop(r);
+      if ((long)(uintptr_t)v != i + 1) {
+        vp_violation("C16", "ring:seq-order", "capacity %ld: sequential pop %ld returned %ld", cap, i, (long)(uintptr_t)v);
+        break;
+      }
+    }
+    lockfree_ring_buffer_destroy(r);
+    vp_count("ring_big_capacity_filled", 1);
+  }
+#if !defined(VP_ASAN) && !defined(VP_TSAN)
+  {
+    // 2^29 slots = 4 GiB of address space (never touched except at both ends)
+    const int k = 29;
+    lockfree_ring_buffer_t* r = lockfree_ring_buffer_create((uint32_t)k);
+    if (r) {
+      const uint64_t cap = 1ULL << k;
+      r->high = cap - 3;
+      r->low = cap - 3;
+      long i;
+      for (i = 0; i < 8; ++i)
+        if (!lockfree_ring_buffer_trypush(r, (void*)(uintptr_t)(i + 1)))
+          vp_violation("C16", "ring:seq-push-failed", "capacity 2^%d: trypush %ld failed on an almost empty buffer", k, i);
+      for (i = 0; i < 8; ++i) {
+        void* v = lockfree_ring_buffer_trypop(r);
+        if ((long)(uintptr_t)v != i + 1) vp_violation("C16", "ring:seq-order", "capacity 2^%d: pop %ld returned %ld", k, i, (long)(uintptr_t)v);
+      }
+      lockfree_ring_buffer_destroy(r);
+      vp_count("ring_largest_capacity_touched_at_both_ends", 1);
+    }
+  }
+#endif
+}
+
 static void sequential_prefix(int cl) {
   // deterministic single-thread facts: fill exactly to capacity, overflow attempt fails, drain in order, underflow fails
   lockfree_ring_buffer_t* r = lockfree_ring_buffer_create((uint32_t)cl);
@@ -135,6 +187,7 @@ void ds_sub_ring(void) {
   uint64_t rng = vp_mix(vp_cfg.seed, 1616);
   int cl;
   for (cl = 1; cl <= 6; ++cl) sequential_prefix(cl);
+  if (vp_cfg.mode == VP_MODE_NOHOOK) big_capacity_prefix();  // (a million sequential operations: pointless under per-operation perturbation)
   for (cur_round = 0; cur_round < rounds; ++cur_round) {
     const int T = ds_nworkers < 2 ? 2 : ds_nworkers;
     cap_log = fixed_cap > 0 ? fixed_cap : 1 + (int)(vp_rand(&rng) % 6);
